@@ -1,0 +1,7 @@
+//go:build !verif
+// +build !verif
+
+package linker
+
+func verifFileKey(c *linkerContext, sourceIndex uint32) string { return "" }
+func verifChunkKey(c *linkerContext, chunkIndex int) string     { return "" }
